@@ -3,7 +3,7 @@ import families, common_parse as cp
 def run(tier, seed):
     d = {g.name: g for g in families.g_dir()}
     if tier == 'quick':
-        sel = [(d[n], [3]) for n in ('lalr', 'etf', 'lrece', 'pal', 'trail', 'mutleft')] + [(d['rrec'], [4])] + [(g, [3]) for g in families.g_rand(seed + 200, 2)]
+        sel = [(d[n], [3]) for n in ('lalr', 'etf', 'lrece', 'pal', 'trail', 'mutleft', 'nulfirst', 'lrnul')] + [(d['rrec'], [4])] + [(g, [3]) for g in families.g_rand(seed + 200, 2)]
     else:
         sel = [(g, [l for l in (1, 2, 3, 4, 5) if (g.nt + 1) ** l <= 4000]) for g in d.values() if g.name not in families.KNOWN_DEFECT_UNITS] + [(g, [2, 3, 4]) for g in families.g_rand(seed + 200, 12)]
     rc = cp.run_parse_property('C09', tier, seed, sel, ['accept', 'messages', 'silent'],
